@@ -129,6 +129,73 @@ Section Descent.
 Variable P : held -> list event -> Prop.
 Hypothesis P_nil : forall h, P h [] -> h = [].
 
+(** In a deadlocked state every unfinished thread is blocked in an acquisition
+    of a lock that another unfinished thread holds (for a reader kept out by a
+    pending writer: the thread that keeps that writer out). *)
+Lemma deadlock_waits :
+  forall (s : state) (its : list ithread),
+    map snd its = threads s ->
+    Forall (fun it => P (fst it) (rest (snd it)) /\ ann_ok (snd it)) its ->
+    (forall l, lockok (locks s l) (total (l, W) its) (total (l, R) its) (ptotal l its)) ->
+    deadlocked s ->
+    (exists it, In it its /\ rest (snd it) <> []) /\
+    forall it, In it its -> rest (snd it) <> [] ->
+      exists l m r it', rest (snd it) = Acq l m :: r /\
+        In it' its /\ rest (snd it') <> [] /\ holds (fst it') l = true.
+Proof.
+  intros s its Hm HFi HL [(th0 & Hin0 & Hne0) Hblocked].
+  rewrite Forall_forall in HFi.
+  assert (Hholder : forall l,
+             writer (locks s l) = true \/ readers (locks s l) <> 0 ->
+             exists it, In it its /\ holds (fst it) l = true).
+  { intros l H. destruct (HL l) as (Hwt & _ & _ & Hrd & _). destruct H as [H|H].
+    - destruct (total_pos (l, W) its) as (it & Hin & Hc); [rewrite (Hwt H); lia|].
+      exists it; split; [assumption|]. eapply cnt_holds; eassumption.
+    - destruct (total_pos (l, R) its) as (it & Hin & Hc); [lia|].
+      exists it; split; [assumption|]. eapply cnt_holds; eassumption. }
+  assert (Hthr : forall it, In it its -> In (snd it) (threads s)).
+  { intros it Hin. rewrite <- Hm. apply in_map; assumption. }
+  assert (Hhead : forall it, In it its -> rest (snd it) <> [] ->
+             exists l m r, rest (snd it) = Acq l m :: r /\
+               exists it', In it' its /\ holds (fst it') l = true).
+  { intros it Hin Hne.
+    pose proof (Hblocked _ (Hthr it Hin) Hne) as Hb. unfold can_step in Hb.
+    destruct (HFi _ Hin) as [_ Ha].
+    destruct it as [h [a p]]; simpl in *.
+    destruct a.
+    - destruct (Ha eq_refl) as (l & r & Ep); simpl in Ep; subst p.
+      exists l, W, r; split; [reflexivity|]. apply Hholder.
+      destruct (writer (locks s l)) eqn:Ew; [left; reflexivity|].
+      right; intros Hr0. apply Hb. do 2 eexists. apply ts_acq_w; assumption.
+    - destruct p as [|[l m|l m|f|f] r]; [congruence| |exfalso..].
+      + destruct m.
+        * exists l, R, r; split; [reflexivity|].
+          destruct (writer (locks s l)) eqn:Ew; [apply Hholder; left; assumption|].
+          destruct (pending (locks s l)) eqn:Ep.
+          { exfalso; apply Hb. do 2 eexists. apply ts_acq_r; assumption. }
+          destruct (HL l) as (_ & _ & _ & _ & Hpd).
+          destruct (ptotal_pos l its) as (it' & Hin' & Hw); [lia|].
+          pose proof (Hblocked _ (Hthr it' Hin')) as Hb'.
+          destruct it' as [h' [a' p']]; unfold waits_w in Hw; simpl in *.
+          apply andb_true_iff in Hw as [-> Hw].
+          destruct p' as [|[l' [|]| | |] r']; try discriminate.
+          apply String.eqb_eq in Hw; subst l'.
+          apply Hholder. right; intros Hr0. apply Hb'; [discriminate|].
+          do 2 eexists. apply ts_acq_w; assumption.
+        * exfalso; apply Hb. do 2 eexists. apply ts_announce.
+      + apply Hb. destruct m; do 2 eexists; constructor.
+      + apply Hb. do 2 eexists. constructor.
+      + apply Hb. do 2 eexists. constructor. }
+  split.
+  - rewrite <- Hm in Hin0. apply in_map_iff in Hin0 as (it0 & E0 & Hin0).
+    exists it0. split; [exact Hin0|]. rewrite E0. exact Hne0.
+  - intros it Hin Hne.
+    destruct (Hhead it Hin Hne) as (l & m & r & Hrest & it' & Hin' & Hh).
+    exists l, m, r, it'. split; [exact Hrest|]. split; [exact Hin'|]. split; [|exact Hh].
+    destruct (HFi _ Hin') as [HP' _].
+    intros E'. rewrite E' in HP'. apply P_nil in HP'. rewrite HP' in Hh. discriminate.
+Qed.
+
 Lemma deadlock_needs_descent :
   forall (s : state) (its : list ithread),
     map snd its = threads s ->
